@@ -24,6 +24,7 @@ META = {
 def run(ctx) -> None:
     run_batch_correspondence(ctx, "C04", ctx.n(60, 1500))
     shape_probe(ctx, ctx.n(12, 300))
+    grid_probe(ctx, ctx.n(8, 120))
     if F is not None:
         F.run(ctx)
 
@@ -95,7 +96,72 @@ def shape_probe(ctx, n: int) -> None:
                     break
 
 
+def grid_case(rep, r: dict) -> None:
+    """a square 2-D grid of settings (misalignment x-offset varies along one vector dimension, y-offset along the other, a
+    second parameter carries the full grid): entry [i, j] of the vectorised result is the scalar simulation with entry
+    [i, j]'s settings — not [j, i]'s"""
+    import numpy as np
+    import torch
+    import cheetah
+    import lattices as LT
+    F64 = torch.float64
+    t = lambda v: torch.tensor(v, dtype=F64)  # noqa: E731
+    A, cls, En, P = r["A"], r["cls"], r["energy"], np.array(r["particles"], dtype=float)
+    mis = np.array(r["mis"], dtype=float)            # (A, A, 2)
+    second = np.array(r["second"], dtype=float)      # (A, A)
+
+    def mk(m, s2):
+        if cls == "TransverseDeflectingCavity":
+            return cheetah.TransverseDeflectingCavity(length=t(0.4), voltage=t(2e6), phase=t(20.0), frequency=t(3e9), misalignment=t(m),
+                                                      tilt=t(s2), dtype=F64)
+        if cls == "Quadrupole":
+            return cheetah.Quadrupole(length=t(0.3), k1=t(s2 * 10.0), misalignment=t(m), tracking_method=r["method"], dtype=F64)
+        return cheetah.Solenoid(length=t(0.3), k=t(s2 * 4.0), misalignment=t(m), dtype=F64)
+    for bt in (("ParticleBeam",) if cls == "TransverseDeflectingCavity" or r["method"] == "bmadx" else ("ParticleBeam", "ParameterBeam")):
+        beam = (lambda: LT.particle_beam(P, En)) if bt == "ParticleBeam" else (lambda: LT.parameter_beam_from(P, En))
+        try:
+            out = mk(mis, second).track(beam())
+        except Exception as ex:  # noqa: BLE001
+            rep.fail("falsifier", f"C04|{cls}|{A}x{A} grid of misalignments|{bt}|raises", f"{cls} with misalignment of shape ({A}, {A}, 2) and a second "
+                     f"parameter of shape ({A}, {A}): {type(ex).__name__}: {str(ex)[:200]}", dict(r, beam=bt))
+            return
+        got = out.particles if bt == "ParticleBeam" else out._mu
+        for i in range(A):
+            for j in range(A):
+                one = mk(mis[i, j], second[i, j]).track(beam())
+                want = one.particles if bt == "ParticleBeam" else one._mu
+                d = (got[i, j] - want).abs().max().item()
+                sc = want.abs().max().item()
+                if not d <= 1e-10 * max(sc, 1e-6):
+                    swapped = (got[i, j] - (mk(mis[j, i], second[i, j]).track(beam()).particles if bt == "ParticleBeam"
+                                            else mk(mis[j, i], second[i, j]).track(beam())._mu)).abs().max().item() <= 1e-10 * max(sc, 1e-6)
+                    rep.fail("falsifier", f"C04|{cls}|{A}x{A} grid of misalignments|{bt}|entry differs",
+                             f"{cls} ({r['method']}) with a {A}x{A} grid of misalignments: entry [{i}, {j}] differs from the scalar simulation of that "
+                             f"entry by {d:.3e}" + (" and equals the simulation with the misalignment of entry [j, i]" if swapped else ""), dict(r, beam=bt))
+                    return
+
+
+def grid_probe(ctx, n: int) -> None:
+    import elements as E
+    import lattices as LT
+    rep, rng = ctx.report, ctx.rng
+    kinds = [("TransverseDeflectingCavity", "bmadx"), ("Quadrupole", "cheetah"), ("Quadrupole", "bmadx"), ("Solenoid", "cheetah")]
+    for i in range(n):
+        cls, method = kinds[i % len(kinds)]
+        A = 2 + (i // len(kinds)) % 2
+        xo, yo = rng.uniform(-1e-3, 1e-3, size=A), rng.uniform(-1e-3, 1e-3, size=A)
+        mis = [[[float(xo[a]), float(yo[b])] for b in range(A)] for a in range(A)]
+        r = {"kind": "grid", "cls": cls, "method": method, "A": A, "mis": mis, "second": rng.uniform(0.05, 0.4, size=(A, A)).tolist(),
+             "energy": float(E.energy(rng)), "particles": LT.gen_particles(rng, 4).tolist()}
+        rep.fals_cases += 1
+        rep.count(f"grid-probe:{cls}:{A}x{A}")
+        rep.case(("grid-probe", cls, method, A), None)
+        grid_case(rep, r)
+
+
 def corpus_case(ctx, r: dict) -> None:
+    if r.get("kind") == "grid":
+        return grid_case(ctx.report, r)
     if F is not None and hasattr(F, "corpus_case"):
         F.corpus_case(ctx, r)
 
